@@ -132,32 +132,62 @@ Theorem isclose_iff : forall a b rel abs,
   (Qabs (a - b) <= rel * qmax (Qabs a) (Qabs b))%Q \/ (Qabs (a - b) <= abs)%Q.
 Proof. intros. unfold isclose. rewrite Qle_bool_iff. apply qmax_le. Qed.
 
-Theorem const_scalar_iff : forall g q rel abs x,
-  const_ok g (CPScalar q rel abs) x = true <->
-  exists y, assoc Nat.eqb x (g_consts g) = Some (CScalar y) /\ isclose y q rel abs = true.
-Proof.
-  intros. unfold const_ok. destruct (assoc Nat.eqb x (g_consts g)) as [[y|l|]|].
-  - split; eauto. intros (y' & E & H); inversion E; subst; auto.
-  - split; [discriminate|]. intros (y' & E & _); discriminate.
-  - split; [discriminate|]. intros (y' & E & _); discriminate.
-  - split; [discriminate|]. intros (y' & E & _); discriminate.
-Qed.
-
-Theorem const_vector_iff : forall g ps rel abs x,
-  const_ok g (CPVec ps rel abs) x = true <->
-  exists ys, assoc Nat.eqb x (g_consts g) = Some (CVec ys) /\ all_close ys ps rel abs = true.
-Proof.
-  intros. unfold const_ok. destruct (assoc Nat.eqb x (g_consts g)) as [[y|l|]|].
-  - split; [discriminate|]. intros (y' & E & _); discriminate.
-  - split; eauto. intros (y' & E & H); inversion E; subst; auto.
-  - split; [discriminate|]. intros (y' & E & _); discriminate.
-  - split; [discriminate|]. intros (y' & E & _); discriminate.
-Qed.
-
 Lemma all_close_length : forall ys ps rel abs, all_close ys ps rel abs = true -> List.length ys = List.length ps.
 Proof.
   induction ys as [| y t IH]; intros [| p ps] rel abs H; simpl in *; try discriminate; auto.
   apply andb_true_iff in H as [_ H]. f_equal; eauto.
+Qed.
+
+Lemma shape_eqb_eq : forall a b, shape_eqb a b = true <-> a = b.
+Proof.
+  intros a b. unfold shape_eqb. split.
+  - apply list_eqb_eq. intros x y H. apply Nat.eqb_eq; auto.
+  - intros ->. apply list_eqb_refl. apply Nat.eqb_refl.
+Qed.
+
+(* a scalar constant pattern: the value is a constant read as a 0-d tensor (numpy_value.ndim == 0) whose one element
+   is within tolerance.  (`cval_view` = (shape, elements): CScalar y and CTensor [] [y] are the two encodings of 0-d) *)
+Theorem const_scalar_iff : forall g q rel abs x,
+  const_ok g (CPScalar q rel abs) x = true <->
+  exists cv y, assoc Nat.eqb x (g_consts g) = Some cv /\ cval_view cv = Some ([], [y]) /\ isclose y q rel abs = true.
+Proof.
+  intros. unfold const_ok. destruct (assoc Nat.eqb x (g_consts g)) as [cv|].
+  2:{ split; [discriminate|]. intros (cv & y & E & _); discriminate. }
+  destruct (cval_view cv) as [[sh ys]|] eqn:V.
+  2:{ split; [discriminate|]. intros (cv' & y & E & V' & _). inversion E; subst. congruence. }
+  split.
+  - intro H. destruct sh; [|discriminate]. destruct ys as [|y [|]]; try discriminate. exists cv, y. auto.
+  - intros (cv' & y & E & V' & H). inversion E; subst cv'. rewrite V in V'. inversion V'; subst. exact H.
+Qed.
+
+(* a list constant pattern: the value is a constant of shape (len(list),) -- rank 1, that length -- whose elements are
+   within tolerance position by position *)
+Theorem const_vector_iff : forall g ps rel abs x,
+  const_ok g (CPVec ps rel abs) x = true <->
+  exists cv ys, assoc Nat.eqb x (g_consts g) = Some cv /\ cval_view cv = Some ([List.length ps], ys) /\
+                all_close ys ps rel abs = true.
+Proof.
+  intros. unfold const_ok. destruct (assoc Nat.eqb x (g_consts g)) as [cv|].
+  2:{ split; [discriminate|]. intros (cv & y & E & _); discriminate. }
+  destruct (cval_view cv) as [[sh ys]|] eqn:V.
+  2:{ split; [discriminate|]. intros (cv' & y & E & V' & _). inversion E; subst. congruence. }
+  split.
+  - intro H. apply andb_true_iff in H as [S A]. apply shape_eqb_eq in S. subst sh. exists cv, ys. auto.
+  - intros (cv' & ys' & E & V' & H). inversion E; subst cv'. rewrite V in V'. inversion V'; subst.
+    apply andb_true_iff. split; auto. apply shape_eqb_eq; auto.
+Qed.
+
+(* the literal forms for the canonical encodings *)
+Theorem const_scalar_of_scalar : forall g q rel abs x y,
+  assoc Nat.eqb x (g_consts g) = Some (CScalar y) -> const_ok g (CPScalar q rel abs) x = isclose y q rel abs.
+Proof. intros. unfold const_ok. rewrite H. reflexivity. Qed.
+
+Theorem const_vector_of_vector : forall g ps rel abs x ys,
+  assoc Nat.eqb x (g_consts g) = Some (CVec ys) -> const_ok g (CPVec ps rel abs) x = all_close ys ps rel abs.
+Proof.
+  intros. unfold const_ok. rewrite H. cbn [cval_view]. destruct (all_close ys ps rel abs) eqn:A.
+  - apply all_close_length in A. rewrite A. apply andb_true_iff; split; auto. apply shape_eqb_eq; auto.
+  - apply andb_false_r.
 Qed.
 
 (* the scalar-vs-tensor rule: a scalar pattern does not match a 1-element vector of the same number, a list pattern
@@ -173,7 +203,9 @@ Proof. intros. unfold const_ok. rewrite H. reflexivity. Qed.
 Theorem const_vector_length : forall g ps rel abs x ys,
   assoc Nat.eqb x (g_consts g) = Some (CVec ys) -> const_ok g (CPVec ps rel abs) x = true ->
   List.length ys = List.length ps.
-Proof. intros g ps rel abs x ys E H. unfold const_ok in H. rewrite E in H. eapply all_close_length; eauto. Qed.
+Proof.
+  intros g ps rel abs x ys E H. rewrite (const_vector_of_vector _ _ _ _ _ _ E) in H. eapply all_close_length; eauto.
+Qed.
 
 (* a value that is not a known constant matches no Constant pattern *)
 Theorem const_needs_constant : forall g c x, assoc Nat.eqb x (g_consts g) = None -> const_ok g c x = false.
